@@ -29,6 +29,24 @@ includes `fault = false`, and the harness treats any real fault as a violation.
 -/
 namespace QM.Sys
 
+/-- Variants of the runtime mirrored by the model: each flag is a repair that is (or is about to
+be) applied to the code; `false` = the code before the repair.  Every definition that depends on a
+flag takes the configuration as an instance argument, so every theorem of the library is a theorem
+about EVERY configuration unless it names one.
+* `exitReports` — notes/C14-fixes/01: the worker reports every terminated process
+  (`Event::ProcessExited`) from `check_completed_processes`, before any ProcessResults carrying its
+  result; the environment only uses it for resources (no routing, no awaits). -/
+class Cfg where
+  exitReports : Bool := false
+
+/-- the code at /repo HEAD -/
+@[instance_reducible] def Cfg.head : Cfg := {}
+
+/-- default configuration (used where no configuration is in scope): the code at HEAD -/
+instance (priority := low) instCfgDefault : Cfg := Cfg.head
+
+variable [Cfg]
+
 abbrev Pid := Nat
 abbrev Wid := Nat
 /-- Flattened canonical value: a tuple is `-1 :: items ++ [-2]`, an integer is itself (≥ 0). -/
@@ -281,6 +299,8 @@ inductive Evt where
   | await (awaiter : Pid) (targets : List Pid)
   | procResults (awaiter : Pid) (results : Results)
   | resultResp (req : Nat) (r : Res)
+  /-- ProcessExited (variant `exitReports`): the process has terminated -/
+  | exited (p : Pid)
   deriving DecidableEq, Repr, Inhabited
 
 /-! ### worker -/
@@ -502,6 +522,8 @@ def handleEventWith (combine : Option Results → Results → Results) (s : Sys)
   | .await a ts => handleAwait s a ts
   | .procResults a rs => handleProcResultsWith combine s a rs
   | .resultResp req r => { s with env := { s.env with results := s.env.results ++ [(req, r)] } }
+  -- `handle_process_exited`: resources only — nothing the protocol model has
+  | .exited _ => s
 
 /-- the environment consumes the first queued event of worker `w` -/
 def envStep1With (combine : Option Results → Results → Results) (s : Sys) (w : Wid) : Sys :=
@@ -638,6 +660,16 @@ def WorkerSt.finish (w : WorkerSt) (cur : Pid) (x : Proc) (ordQ : List Pid) : Wo
   let w1 := { w with procs := upd w.procs cur (some { x with result := some x.finalRes }) }
   (orderBy ordQ (w1.localAwaiters cur)).foldl (fun acc a => acc.notifyResult a cur x.finalRes) w1
 
+/-- does a finishing process only go to sleep (persistent and successful)? -/
+def Proc.sleepsAfter (x : Proc) : Bool :=
+  x.persistent && (match x.finalRes with | .ok _ => true | .err => false)
+
+/-- variant `exitReports`: the worker reports the process that terminated in this step
+(`take_exited` in `check_completed_processes`: after the step's action — a finishing step has none —
+and before the ProcessResults / ResultResponse events of the same worker step) -/
+def Sys.noteExit (s : Sys) (i : Wid) (cur : Pid) (x : Proc) : Sys :=
+  if Cfg.exitReports && !x.sleepsAfter then s.pushEvt i (.exited cur) else s
+
 /-- One `Executor::step` of worker `i` followed by `handle_action`. -/
 def execStep (s : Sys) (i : Wid) (fuel : Nat) (ordQ : List Pid) : Sys :=
   let w0 := (s.wk i).checkExpired s.prog s.now ordQ
@@ -650,7 +682,7 @@ def execStep (s : Sys) (i : Wid) (fuel : Nat) (ordQ : List Pid) : Sys :=
     | some x =>
       if x.result = some .err then
         -- frames were cleared by an error propagated earlier: finished branch at once
-        s.setWk i (w1.finish cur x ordQ)
+        (s.setWk i (w1.finish cur x ordQ)).noteExit i cur x
       else
         let (x', out) := slice s.prog s.now cur fuel x
         let w2 := { w1 with procs := upd w1.procs cur (some x') }
@@ -664,8 +696,8 @@ def execStep (s : Sys) (i : Wid) (fuel : Nat) (ordQ : List Pid) : Sys :=
         | .awaitInit ts =>
           (s.setWk i { w2 with selecting := sinsert w2.selecting cur }).pushEvt i (.await cur ts)
         | .blocked => s.setWk i { w2 with selecting := sinsert w2.selecting cur }
-        | .failed => s.setWk i (w2.finish cur x' ordQ)
-        | .done => s.setWk i (w2.finish cur x' ordQ)
+        | .failed => (s.setWk i (w2.finish cur x' ordQ)).noteExit i cur x'
+        | .done => (s.setWk i (w2.finish cur x' ordQ)).noteExit i cur x'
 
 /-! #### check_completed_processes -/
 
